@@ -128,6 +128,16 @@ def run_case(case, ctx):
                           f"eval:hull:{kind}", f"curve({u}) leaves the convex hull of the control points", u=str(u))
         else:
             ctx.count("unjudged_float_evals")
+    # one parameter wrapped as a 0-d float numpy array (np.array(u), what np.squeeze / a reduction hands back): a scalar
+    # call; judged by value where the float is the parameter itself (float classes, dyadic parameters of exact ones)
+    k0 = len(params) // 2
+    if scalar_results and k0 < len(scalar_results) and scalar_results[k0] is not None and F(float(params[k0])) == F(params[k0]):
+        o = call(curve, np.array(float(params[k0])))
+        want0 = [float(c) for c in lib.pt_tuple(scalar_results[k0])]
+        sc0 = max([1.0] + [abs(float(c)) for pt in rc.P for c in pt])
+        good0 = o.ok and lib.pts_close(lib.pt_tuple(o.value) if o.ok else None, want0, 1e-12, sc0) if o.ok else False
+        ctx.check(good0, f"eval:0d-array:{o.exc_name if not o.ok else 'value'}",
+                  f"curve(np.array(u)) for u={params[k0]}: {o.brief() if not o.ok else lib.short(o.value)} but curve(u) = {lib.short(scalar_results[k0])}")
     # scalar vs sequence dispatch
     pscale = max([1.0] + [abs(float(c)) for pt in rc.P for c in pt])
     nums = [lib.num(u, nt) for u in params]
